@@ -169,13 +169,13 @@ Definition src_of {A} (src : option ilist) (f : ilist -> option A) : option A :=
 Record core := { k_len : nat; k_ids : option (list Z); k_nums : option (list Z); k_ranks : option (list Z) }.
 
 Definition ids_len (ia : zarr) : res nat :=
-  (* np.asarray(item_ids); dtype test; check_1d(ids); len(item_ids) *)
-  if z_badtype ia then Err EType else
+  (* `if len(item_ids)` (an empty array of any dtype is replaced by an empty int32 one);
+     np.asarray(item_ids); dtype test; check_1d(ids); len(item_ids) *)
   match z_shape ia with
   | [] => Err EType                                 (* len() of a 0-d array *)
-  | [n] => Ok n
-  | O :: _ => Ok O                                  (* `if len(item_ids)` false: replaced by an empty 1-D array *)
-  | _ => Err EType                                  (* check_1d *)
+  | O :: _ => Ok O
+  | [n] => if z_badtype ia then Err EType else Ok n
+  | _ => Err EType                                  (* dtype test or check_1d *)
   end.
 
 Definition nums_len (na : zarr) (known : option nat) : res nat :=
@@ -349,7 +349,8 @@ Definition slice_idx (n : nat) (start stop step : option Z) : res (list nat) :=
   Ok (range_list n b e st).
 Definition sel_idx (n : nat) (s : sel) : res (list nat) :=
   match s with
-  | SMask m => if (length m =? n)%nat then Ok (mask_pos m O) else Err EIndex
+  | SMask m => (* NumPy also accepts an empty Boolean index on any array (it selects nothing) *)
+               if (length m =? n)%nat || (length m =? 0)%nat then Ok (mask_pos m O) else Err EIndex
   | SIdx ix => norm_idxs n ix
   | SScal i => norm_idxs n [i]
   | SSlice a b c => slice_idx n a b c
